@@ -1,4 +1,5 @@
 import NormModel.Properties.C17
 #print axioms Norm.C17.pop_opaque
 #print axioms Norm.C17.string_body_swap
+#print axioms Norm.C17.swap_token
 #print axioms Norm.C17.alphabet_opaque
